@@ -40,6 +40,12 @@ CLAIMED = {
    design_ref="DESIGN.md 4.7, 5 (C16)",
    note="Trusted: the new-reference / stealing API tables in sa/rules/refs.py, clang AST, sa/ dataflow. One accepted idiom (dead error exit of nextGenericKeyIter) is listed in the evidence.",
    technique="ownership/typestate dataflow on clang AST CFGs with inferred interprocedural summaries"),
+ "C07": dict(
+   category="model_checking",
+   text="Exhaustive decision-table extraction: for every consistent valuation of the finitely many observations the merge can make (signs of the three key comparisons, value equalities, cursor liveness, first-position flags; mappings and sets) the action of C bucket_merge (22 translation units, both modes) and of the two Python _p_resolveConflict methods is computed from the code by constant propagation and compared pairwise incl. reason code and against a specification table derived from the property statement; refusal prelude (successor link over all three states, empty side, empty result, successor carried) and tree-state unwrapping (multi-leaf -> 11) are checked over enumerated shapes. Exhaustive over the abstract atom space, so it holds for all key/value universes, under the assumption that cursors yield strictly increasing keys.",
+   design_ref="DESIGN.md 3.5, 4.4, 5 (C07)",
+   note="Trusted: the specification table in sa/rules/merge.py (spec()), the two small interpreters over the C IR / Python ast; an unrecognised construct aborts the run (exit 2) instead of being skipped.",
+   technique="finite-domain conditional constant propagation (decision-table extraction) + sibling/spec table comparison"),
 }
 
 NA_PENDING = "check not built yet (engine under construction); see DESIGN.md section 11"
